@@ -630,6 +630,8 @@ pub fn run_transport(cfg: &TransportCfg, sc: &mut Sc) {
         }
     };
     check_nonces(sc, &dirs);
+    let mut oversize_done = false;
+    let mut seen_enc: std::collections::BTreeMap<(Vec<u8>, u64), (Vec<u8>, Vec<u8>)> = std::collections::BTreeMap::new();
     for _step in 0..cfg.steps {
         let mut action = r.below(100);
         // in a one-way pattern only the initiator sends; the state-only operations (rekeys, explicit
@@ -643,9 +645,52 @@ pub fn run_transport(cfg: &TransportCfg, sc: &mut Sc) {
             // write
             let plen = [0usize, 1, 15, 16, 17, 64, 300][r.below(7)];
             let p = r.bytes(plen);
+            // sometimes a failing write first: undersized buffer, or (once per scenario) an oversize payload;
+            // it must return Input, encrypt nothing, and leave the nonce alone (checked by check_nonces below
+            // and by the (key, nonce) log)
+            let fault = r.below(6);
+            if fault == 0 && dirs[d].send_n != u64::MAX {
+                let cap = [0usize, 1, 15, plen, plen + 15][r.below(5)];
+                let o = sc.ex.t_write(w, &p, cap);
+                sc.check_panic(&o, "t_write undersized buffer");
+                sc.count("t.write_short_buffer");
+                if o.err() != Some("Input") {
+                    sc.viol("C14", format!("{}: transport write of {plen} bytes into a {cap}-byte buffer gave {o:?}", cfg.name));
+                    sc.viol("C10", format!("{}: transport write of {plen} bytes into a {cap}-byte buffer gave {o:?}", cfg.name));
+                }
+                if sc.ex.last_events.iter().any(|e| matches!(e, crate::toy::Ev::Enc { .. })) {
+                    sc.viol("C06", format!("{}: a failed transport write encrypted", cfg.name));
+                    sc.viol("C09", format!("{}: a failed transport write encrypted", cfg.name));
+                }
+            } else if fault == 1 && !oversize_done && dirs[d].send_n != u64::MAX {
+                oversize_done = true;
+                let big = [65520usize, 65535, 65536][r.below(3)];
+                let bp = vec![0x5au8; big];
+                let o = sc.ex.t_write(w, &bp, big + 16 + r.below(2) * 5000);
+                sc.check_panic(&o, "t_write oversize");
+                sc.count("t.write_oversize");
+                if o.err() != Some("Input") {
+                    sc.viol("C14", format!("{}: transport write of a {big}-byte payload gave {o:?}", cfg.name));
+                }
+                if sc.ex.last_events.iter().any(|e| matches!(e, crate::toy::Ev::Enc { .. })) {
+                    sc.viol("C06", format!("{}: a refused oversize transport write encrypted", cfg.name));
+                    sc.viol("C09", format!("{}: a refused oversize transport write encrypted", cfg.name));
+                }
+            }
             let o = sc.ex.t_write(w, &p, plen + 16 + r.below(3));
             sc.check_panic(&o, "t_write");
             sc.count("t.write");
+            for e in &sc.ex.last_events.clone() {
+                if let crate::toy::Ev::Enc { key, n, ad, pt } = e {
+                    if let Some((ad0, pt0)) = seen_enc.get(&(key.clone(), *n)) {
+                        if ad0 != ad || pt0 != pt {
+                            sc.viol("C06", format!("{}: two different transport inputs encrypted under one key at nonce {n}", cfg.name));
+                        }
+                    } else {
+                        seen_enc.insert((key.clone(), *n), (ad.clone(), pt.clone()));
+                    }
+                }
+            }
             let dd = &mut dirs[d];
             if dd.send_n == u64::MAX {
                 if o.err() != Some("State(Exhausted)") {
@@ -692,10 +737,12 @@ pub fn run_transport(cfg: &TransportCfg, sc: &mut Sc) {
                 (m, "bitflip")
             } else if kind == 6 {
                 let mut m = r.pick(&dd.sent).1.clone();
-                if r.chance(1, 2) {
-                    m.pop();
-                } else {
-                    m.push(0);
+                match r.below(3) {
+                    0 => {
+                        m.pop();
+                    },
+                    1 => m.push(0),
+                    _ => m.truncate(r.below(16)), // shorter than a tag
                 }
                 (m, "resize")
             } else if kind == 7 {
@@ -706,7 +753,8 @@ pub fn run_transport(cfg: &TransportCfg, sc: &mut Sc) {
                 (r.pick(&dd.sent).1.clone(), "any")
             };
             let short_cap = r.chance(1, 8) && msg.len() > 17;
-            let cap = if short_cap { msg.len() - 17 } else { msg.len() };
+            // payload buffers: one byte short, exact, in between (1..15 spare bytes), message-sized, generous
+            let cap = if short_cap { msg.len() - 17 } else if msg.len() >= 16 { msg.len() - 16 + [0usize, 1, 8, 15, 16, 16, 100][r.below(7)] } else { msg.len() };
             let o = sc.ex.t_read(rd, &msg, cap);
             sc.check_panic(&o, "t_read");
             sc.count(&format!("t.read.{what}"));
@@ -818,6 +866,7 @@ pub fn run_transport(cfg: &TransportCfg, sc: &mut Sc) {
             let n = u64::MAX - r.below(3) as u64;
             sc.ex.set_send_nonce(w, n);
             dd.send_n = n;
+            seen_enc.clear(); // the hook may legitimately place the counter on a used value
             sc.count("t.set_send_nonce");
         }
         // reads at the reserved nonce
@@ -952,6 +1001,17 @@ pub fn run_stateless(cfg: &TransportCfg, sc: &mut Sc) {
         if r.chance(1, 2) || written.is_empty() {
             let plen = [0usize, 1, 16, 40][r.below(4)];
             let p = r.bytes(plen);
+            // an undersized output buffer (0 .. payload+15 bytes) is refused with Input, whatever the nonce
+            if r.chance(1, 4) && n != u64::MAX {
+                let cap = [0usize, 1, 15, plen, plen + 15][r.below(5)];
+                let o = sc.ex.st_write(w, n, &p, cap);
+                sc.check_panic(&o, "st_write undersized buffer");
+                sc.count("st.write_short_buffer");
+                if o.err() != Some("Input") {
+                    sc.viol("C14", format!("{}: stateless write of {plen} bytes into a {cap}-byte buffer gave {o:?}", cfg.name));
+                    sc.viol("C10", format!("{}: stateless write of {plen} bytes into a {cap}-byte buffer gave {o:?}", cfg.name));
+                }
+            }
             let o = sc.ex.st_write(w, n, &p, plen + 16);
             sc.check_panic(&o, "st_write");
             if n == u64::MAX {
@@ -1003,6 +1063,16 @@ pub fn run_stateless(cfg: &TransportCfg, sc: &mut Sc) {
                     sc.viol("C04", format!("{}: tampered stateless message accepted", cfg.name));
                 } else if p.len() >= 16 && sc.ex.last_buf.windows(p.len()).any(|w| w == p.as_slice()) {
                     sc.viol("C19", format!("{}: rejected stateless message left its plaintext in the {cap}-byte buffer", cfg.name));
+                }
+            }
+            // truncated to fewer bytes than a tag (0..15): an error, never a panic (C04, C10)
+            if r.chance(1, 3) {
+                let cut = r.below(16).min(m.len());
+                let o = sc.ex.st_read(rd2, wn, &m[..cut], 64);
+                sc.check_panic(&o, "st_read shorter than a tag");
+                sc.count("st.read_short");
+                if o.is_ok() {
+                    sc.viol("C04", format!("{}: stateless message truncated to {cut} bytes accepted", cfg.name));
                 }
             }
             // reflection
